@@ -120,8 +120,20 @@ class Bench:
         return self.built[key]
 
 
+_DOC_CACHE = {}
+
+
 def document_bytes(fmt, doc, root):
     """Bytes of the abstract document in `fmt`, or None if it does not exist in this format."""
+    key = (fmt, root, json.dumps(doc, sort_keys=True))
+    if key not in _DOC_CACHE:
+        if len(_DOC_CACHE) > 200000:
+            _DOC_CACHE.clear()
+        _DOC_CACHE[key] = _document_bytes(fmt, doc, root)
+    return _DOC_CACHE[key]
+
+
+def _document_bytes(fmt, doc, root):
     valid = incworld.encode(fmt, {"a": {"x": [1, 2, {"y": "zzzz"}]}, "n": 7})
     if doc["k"] == "unparseable":
         data = incworld.bad_document(fmt, doc["how"], valid)
@@ -141,7 +153,7 @@ def document_bytes(fmt, doc, root):
     return data
 
 
-def check_load_case(bench, case, fmt, via, stats):
+def check_load_case(bench, case, fmt, via, stats, with_reference=True):
     """spec -> code for one finished load case in one format; returns [(signature, detail, extra)]."""
     cinco = bench.cinco
     sid, fid = case["sid"], case["fid"]
@@ -172,7 +184,7 @@ def check_load_case(bench, case, fmt, via, stats):
         if incworld.canon(real.after) != incworld.canon(real.before) or real.repl:
             bad.append(("conf:load:unchanged:" + cls, "a load that failed in %s changed the configuration (replaced objects: %s)" % (case["failedAt"], real.repl), extra))
     ref = case["ref"]
-    if ref["defined"]:
+    if ref["defined"] and with_reference:
         out_b, cfg_b = incworld.run_load_tree(cinco, world, schema, desc, case["pre"], ref["tree"])
         extra["reference"] = {"out": out_b, "after": cfg_b}
         if out_b != real.out or (out_b == "ok" and incworld.canon(cfg_b) != incworld.canon(real.after)):
@@ -581,10 +593,12 @@ def run(tier, seed):
             cls = "%s/%s/%s" % (case["out"], case["failedAt"] or "-", case["why"] or "-")
             classes[cls] = classes.get(cls, 0) + 1
             distinct.add(common.hash_case(["l", case["sid"], case["fid"], case["pre"], case["doc"]]))
-            # quick: two formats per case (rotating, so all five are used throughout); thorough: all five
-            fmts = FORMATS if big else [FORMATS[idx % 5], FORMATS[(idx + 2) % 5]]
+            # two (quick) / three (thorough) of the five formats per case, rotating, so that all five are
+            # used evenly; the reference side of the equivalence is executed once per case
+            fmts = [FORMATS[idx % 5], FORMATS[(idx + 2) % 5]] + ([FORMATS[(idx + 4) % 5]] if big else [])
+            eq0 = stats["equivalence_pairs"]
             for j, fmt in enumerate(fmts):
-                bad = check_load_case(bench, case, fmt, "load" if (idx + j) % 2 else "loads", stats)
+                bad = check_load_case(bench, case, fmt, "load" if (idx + j) % 2 else "loads", stats, with_reference=(stats["equivalence_pairs"] == eq0))
                 for sig, detail, extra in bad or []:
                     n_viol["load"] += 1
                     if n_viol["load"] <= 25:
@@ -641,7 +655,7 @@ def run(tier, seed):
         "evaluations": executed,
         "distinct_nontrivial": len(distinct),
         "rule": "merge case = (base, child) pair given to combine_trees; load case = (schema, file system, prior tree, document) "
-        "loaded with Config.load/loads from real files (quick: 2 of the 5 formats per case in rotation, thorough: all 5); "
+        "loaded with Config.load/loads from real files (quick: 2, thorough: 3 of the 5 formats per case, in rotation); "
         "TLC enumerates the candidate sets completely; the driver adds seeded random tree pairs (depth 4, 6 keys) and random "
         "schemas/file systems/documents (3 scopes, up to 3 include fields per scope, relative/absolute/dotted names); "
         "distinct = distinct inputs; non-trivial merge = both trees non-empty",
